@@ -46,3 +46,83 @@ VDRIVE_OP(lts)
 	res["m"] = m;
 	return res;
 }
+
+// ---------------------------------------------------------------- large-LTS arm for C16
+// {"op":"ltsagree","seed":S,"count":N}: seeded random LTSs with 10-45 states and 2-5 labels (enough (label, state) pairs for
+// several rows of the engine's counter table), random partition / preorder.  The result is screened HERE for
+// consequences of the contract: it contains the identity, stays inside the lifted initial preorder, and IS a simulation.
+// (Maximality cannot be screened without an oracle.)  Suspicious cases come back as ordinary "lts" events for TLC.
+#include <random>
+VDRIVE_OP(ltsagree)
+{
+	std::mt19937 rng(c.at("seed").get<unsigned>());
+	size_t count = c.at("count").get<size_t>();
+	json suspicious = json::array();
+	for (size_t i = 0; i < count; ++i)
+	{
+		size_t n = 10 + rng() % 36;
+		size_t nl = 2 + rng() % 4;
+		size_t ne = n + rng() % (3 * n);
+		SetStage(("ltsagree " + std::to_string(i)).c_str());
+		json edges = json::array();
+		std::vector<std::vector<std::pair<size_t, size_t>>> post(n);
+		VATA::ExplicitLTS lts(n);
+		for (size_t e = 0; e < ne; ++e)
+		{
+			size_t q = rng() % n, a = rng() % nl, r = rng() % n;
+			edges.push_back(json::array({q, a, r}));
+			post[q].push_back(std::make_pair(a, r));
+			lts.addTransition(q, a, r);
+		}
+		lts.init();
+		// random partition into m blocks with a random preorder on them
+		size_t m = 1 + rng() % 4;
+		std::vector<std::vector<size_t>> part(m);
+		std::vector<size_t> blockOf(n);
+		for (size_t q = 0; q < n; ++q) { size_t b = (q < m) ? q : rng() % m; part[b].push_back(q); blockOf[q] = b; }
+		std::vector<std::vector<bool>> pre(m, std::vector<bool>(m, false));
+		for (size_t x = 0; x < m; ++x) { for (size_t y = 0; y < m; ++y) { pre[x][y] = (x == y) || (rng() % 100 < 35); } }
+		for (size_t k = 0; k < m; ++k) { for (size_t x = 0; x < m; ++x) { for (size_t y = 0; y < m; ++y) { if (pre[x][k] && pre[k][y]) { pre[x][y] = true; } } } }
+		VATA::Util::BinaryRelation rel;
+		rel.resize(m);
+		rel.reset(false);
+		for (size_t x = 0; x < m; ++x) { for (size_t y = 0; y < m; ++y) { rel.set(x, y, pre[x][y]); } }
+		VATA::Util::BinaryRelation out = lts.computeSimulation(part, rel, n);
+		bool bad = (out.size() != n);
+		for (size_t q = 0; q < n && !bad; ++q)
+		{
+			if (!out.get(q, q)) { bad = true; }
+			for (size_t r = 0; r < n && !bad; ++r)
+			{
+				if (!out.get(q, r)) { continue; }
+				if (!pre[blockOf[q]][blockOf[r]]) { bad = true; break; }
+				for (auto& e : post[q])
+				{
+					bool answered = false;
+					for (auto& f : post[r]) { if (f.first == e.first && out.get(e.second, f.second)) { answered = true; break; } }
+					if (!answered) { bad = true; break; }
+				}
+			}
+		}
+		if (bad && suspicious.size() < 6)
+		{
+			json ev;
+			ev["op"] = "lts"; ev["n"] = n; ev["k"] = n; ev["edges"] = edges; ev["outcome"] = "ok"; ev["src"] = "ltsagree";
+			ev["id"] = json::array({"ltsagree", c.at("seed"), i});
+			json jp = json::array(), jr = json::array();
+			for (auto& b : part) { jp.push_back(b); }
+			for (size_t x = 0; x < m; ++x) { json row = json::array(); for (size_t y = 0; y < m; ++y) { row.push_back(pre[x][y] ? 1 : 0); } jr.push_back(row); }
+			ev["part"] = jp; ev["rel"] = jr;
+			json mm = json::array();
+			for (size_t q = 0; q < out.size(); ++q) { json row = json::array(); for (size_t r = 0; r < out.size(); ++r) { row.push_back(out.get(q, r) ? 1 : 0); } mm.push_back(row); }
+			json rr;
+			rr["m"] = mm;
+			ev["res"] = rr;
+			suspicious.push_back(ev);
+		}
+	}
+	json res;
+	res["count"] = count;
+	res["suspicious"] = suspicious;
+	return res;
+}
